@@ -54,11 +54,14 @@ MUTANTS = [
      # ALL names in registration order, so losing the slot on delete cannot permute them; the slot-keeping
      # that matters is in _setattr_keep_slot (EditableModule path), mutated by c10_setattr_slot_revert below
     ("c10_setattr_slot_revert", "C10", "xitorch/_utils/attr.py",
-     "        obj.__dict__.pop(name, None)\n        obj._parameters[name] = val\n    else:\n        setattr(obj, name, val)\n",
-     "        del obj._parameters[name]\n        obj.__dict__[name] = val\n    else:\n        setattr(obj, name, val)\n", 1),
-    ("c10_param_slot_shadow_revert", "C10", "xitorch/_utils/attr.py",     # revert of e0a2728
-     "        obj.__dict__.pop(name, None)\n        obj._parameters[name] = val\n    else:\n        setattr(obj, name, val)\n",
-     "        obj._parameters[name] = None\n        obj.__dict__[name] = val\n    else:\n        setattr(obj, name, val)\n", 1),
+     "                if place is obj._parameters:\n                    obj.__dict__.pop(name, None)\n                place[name] = val\n                return\n",
+     "                if place is obj._parameters:\n                    del obj._parameters[name]\n                    obj.__dict__[name] = val\n                    return\n                place[name] = val\n                return\n", 1),
+    ("c10_param_slot_shadow_revert", "C10", "xitorch/_utils/attr.py",     # behaviour before e0a2728
+     "                if place is obj._parameters:\n                    obj.__dict__.pop(name, None)\n                place[name] = val\n                return\n",
+     "                if place is obj._parameters and not isinstance(val, torch.nn.Parameter):\n                    obj._parameters[name] = None\n                    obj.__dict__[name] = val\n                    return\n                if place is obj._parameters:\n                    obj.__dict__.pop(name, None)\n                place[name] = val\n                return\n", 1),
+    ("c10_place_based_revert", "C10", "xitorch/_core/pure_function.py",   # revert of 958d5a4
+     "            set_attr(self.obj, name, param)  # written into the place where the name lives\n",
+     "            del_attr(self.obj, name)\n            set_attr(self.obj, name, param)\n", 1),
     ("c10_quad_lock_not_released", "C10", "xitorch/_core/pure_function.py",
      "        finally:\n            self._state_change_allowed = prev_status\n",
      "        except ZeroDivisionError:\n            pass\n        if True:\n            self._state_change_allowed = prev_status\n", 1),
